@@ -415,6 +415,9 @@ func GenReq(r *core.Rand, t *Table, router string) Req {
 			req.Hdr[c] = "1"
 		}
 	}
+	if r.Chance(1, 8) {
+		req.Query = r.Pick([]string{"a=1", "a=1&b=%2Fx%20y", "path=/other/route", "x", "%7Bv%7D=1&:verb", "a=/&b=//"})
+	}
 	if r.Chance(1, 12) {
 		// a second field of the same header: the framework reads the first one
 		req.More = map[string][]string{}
